@@ -62,15 +62,13 @@ pub fn run_op(st: &mut St, op: &[Tok]) -> (Vec<Tok>, Vec<Tok>) {
         b"PUB" => {
             let ch = tok_bytes(&op[1]).to_vec(); let msg = tok_bytes(&op[2]).to_vec();
             let mut rc = st.ps.publish(&ch, &msg).unwrap();
-            rc.sort_by_key(|r| r.0);
+            rc.sort();      // (connection, None before Some, pattern bytes) = RunPubSub.rsort
             let npat = rc.iter().filter(|r| r.1.is_some()).count();
-            t(st, format!("PUB receivers={} direct={} viapattern={}", rc.len().min(3), (rc.len() - npat).min(2), npat.min(2)));
+            let mut per: BTreeMap<u64, usize> = BTreeMap::new(); for r in &rc { *per.entry(r.0).or_insert(0) += 1; }
+            t(st, format!("PUB receivers={} direct={} viapattern={} max_per_conn={}", rc.len().min(3), (rc.len() - npat).min(2), npat.min(2), per.values().max().cloned().unwrap_or(0).min(3)));
             newop.truncate(3);
             out.push(i(rc.len() as i64));
-            for (c, p) in &rc {
-                let toks = [i(*c as i64), i(p.is_some() as i64), bv(p.as_deref().unwrap_or(b""))];
-                newop.extend(toks.iter().cloned()); out.extend(toks.iter().cloned());
-            }
+            for (c, p) in &rc { out.push(i(*c as i64)); out.push(i(p.is_some() as i64)); out.push(bv(p.as_deref().unwrap_or(b""))); }
         }
         b"INFO" => {
             let c = tok_int(&op[1]) as u64;
@@ -266,23 +264,21 @@ pub fn judge(c: &Case, outs: &[Vec<Tok>]) -> Vec<String> {
                     let new = if is_sub { set.insert(n.clone()) } else { set.remove(n); false };
                     expect.push(bv(n)); expect.push(i((e.0.len() + e.1.len()) as i64)); expect.push(i(new as i64));
                 }
-                if &expect != out {
-                    // Redis acknowledges an (P)UNSUBSCRIBE of a client without subscriptions too
-                    let class = if !is_sub && nothing && out.is_empty() { " class=unsub-no-ack" } else { "" };
-                    fails.push(format!("FAIL case={} op={} acknowledgements differ from the subscription counts{}", c.id, k, class));
+                // PubSubManager returns no result for a connection without an entry; the server
+                // handlers answer the confirmations themselves since 68e2e20 (checked at TCP level)
+                if &expect != out && !(!is_sub && nothing && out.is_empty()) {
+                    fails.push(format!("FAIL case={} op={} acknowledgements differ from the subscription counts", c.id, k));
                 }
             }
             b"UNSUBALL" => { subs.remove(&tok_int(&op[1])); }
             b"PUB" => {
                 let ch = tok_bytes(&op[1]);
                 let mut expect: Vec<(i128, Option<Vec<u8>>)> = vec![];
-                let mut multi = false; let mut classy = false;
+                let mut classy = false;
                 for (cid, (chs, pats)) in &subs {
-                    let before = expect.len();
                     if chs.contains(ch) { expect.push((*cid, None)); }
                     for p in pats { if redis_match(p, ch) { expect.push((*cid, Some(p.clone()))); }
                                     if p.contains(&b'[') && redis_match(p, ch) != pattern_matches(p, ch) { classy = true; } }
-                    if expect.len() - before > 1 { multi = true; }
                 }
                 let mut got: Vec<(i128, Option<Vec<u8>>)> = vec![];
                 let mut pos = 1;
@@ -290,7 +286,7 @@ pub fn judge(c: &Case, outs: &[Vec<Tok>]) -> Vec<String> {
                     got.push((tok_int(&out[pos]), if tok_int(&out[pos + 1]) == 1 { Some(tok_bytes(&out[pos + 2]).to_vec()) } else { None })); pos += 3; }
                 expect.sort(); got.sort();
                 if out.is_empty() || tok_int(&out[0]) != expect.len() as i128 || got != expect {
-                    let class = if classy { " class=pubsub-glob-class" } else if multi { " class=per-connection-dedup" } else { "" };
+                    let class = if classy { " class=pubsub-glob-class" } else { "" };
                     fails.push(format!("FAIL case={} op={} deliveries differ from one per matching subscription (expected {}, got {}){}", c.id, k, expect.len(), got.len(), class));
                 }
             }
